@@ -31,7 +31,9 @@ LEVEL_TEXT = (
     "authenticate()/get_user() really suspend, a pipelined USER handled at the await leaves the session logged in as a user whose "
     "password was not supplied; replayed on the real server every run). Transfers served after the command: "
     "C03_scheduled_worker_fixed_at_command_time and C03_served_object_independent_of_later_session (the object is resolved under the "
-    "issuing login; what is served does not depend on the session of the moment of serving)."
+    "issuing login; what is served does not depend on the session of the moment of serving). Round 4: C03_command_line_decoded_strictly "
+    "(parse_command decodes without errors=: nothing is dropped from the bytes before the credential comparison); credentials are "
+    "exercised as raw bytes (finding F21: str.rstrip() strips trailing white space of every kind before the comparison)."
 )
 LEVEL_NOTE = (
     "Trusted: Coq kernel, py2v (footprint extraction is syntactic: connection.<attr> writes, path_io calls, worker spawns), extraction, "
@@ -122,13 +124,33 @@ def run_impl(table, events):
     return obs, tree
 
 
+GENERIC_ARGS = ["", "/", "d", "g", "d/f", "missing"]
+MODEL_VERBS = c05.SUPPORTED | {"foo"}
+
+
+def server_verbs_unknown_to_harness():
+    """verbs of the command table of the aioftp under test that neither the harness alphabet nor the model knows"""
+    try:
+        table = aioftp.Server().commands_mapping
+    except Exception:  # noqa: BLE001 - a server that cannot even be constructed: nothing to add, the histories will say so
+        return []
+    known = {v.lower() for v in VERBS} | {"user", "pass", "quit"} | c05.SUPPORTED
+    return sorted(k.upper() for k in table if k.lower() not in known)
+
+
 def check_history(ctx, table, h, mo):
     users = c05.USERS[table]
-    obs, tree = run_impl(table, h)
     history = [[v, a, (p.decode("latin-1") if p is not None else None)] for v, a, p in h]
+    try:
+        obs, tree = run_impl(table, h)
+    except Exception as e:  # noqa: BLE001 - the (mutated) implementation raised inside the driver: an observation
+        ctx.disagree("session-exception", {"key": "c03-driver-exception", "table": table, "history": history}, "a reply to every command", repr(e))
+        return
     st = (None, False)
     prev = {"logged": False, "cwd": None, "passive": False, "data": False}
-    ok = c05.compare(ctx, table, h, mo, obs, tree, "memory")
+    if all(v.lower() in MODEL_VERBS or v == ftpsim.DATACONN for v, _, _ in h):
+        c05.compare(ctx, table, h, mo, obs, tree, "memory")
+    # (a history with a verb the model has no entry for is judged by the property oracle below alone)
     for i, ((verb, arg, payload), ob) in enumerate(zip(h, obs)):
         pr = ob["probe"]
         if verb == ftpsim.DATACONN:
@@ -153,7 +175,8 @@ def check_history(ctx, table, h, mo):
                 why = "listener-opened-before-login"
             elif prev["cwd"] is not None and pr["cwd"] != prev["cwd"]:
                 why = "cwd-changed-before-login"
-            elif any(c.startswith(("1", "2", "3")) for c in ob["codes"]) and v not in ("quit", "syst", "rest"):
+            elif any(c.startswith(("1", "2", "3")) for c in ob["codes"]) and v not in ("quit", "syst", "rest") and v in MODEL_VERBS:
+                # (of a verb unknown to the harness only the EFFECTS are judged: backend, listener, cwd, login state)
                 why = "command-succeeded-before-login"
         if why:
             ctx.violation(
@@ -561,6 +584,95 @@ def stream_pipelined(ctx):
     ctx.count("pipelined_sessions", n)
 
 
+# ------------------------------------------------------------------------------------------------------------
+# (b) USER / PASS arguments as raw BYTES, including sequences that are invalid in the server's encoding
+UNDECODABLE = [b"\xff", b"\xc3", b"\x80", b"\xc0\xaf", b"\xed\xa0\x80", b"\xf8\x88", b"\xff\xf4\xff\xf2"]
+WHITESPACE = [b" ", b"\t", b"\xc2\xa0", b"\xe2\x80\x83", b"\x1f", b"\x0c"]
+
+
+def credential_variants(cred):
+    """(class, bytes): byte strings that are NOT the credential (plus the credential itself as the control)"""
+    b = cred.encode("utf-8")
+    out = [("exact", b)]
+    for x in UNDECODABLE:
+        for i in range(len(b) + 1):
+            out.append(("undecodable", b[:i] + x + b[i:]))
+    for ws in WHITESPACE:
+        out.append(("trailing-whitespace", b + ws))
+        out.append(("leading-whitespace", ws + b))
+        if len(b) > 1:
+            out.append(("inner-whitespace", b[:1] + ws + b[1:]))
+    out += [("nul", b + b"\x00"), ("nul", b"\x00" + b), ("case", b.swapcase()), ("prefix", b[:-1]), ("extended", b + b"x"),
+            ("composed", b + "́".encode()), ("fullwidth", "".join(chr(ord(c) + 0xFEE0) if "!" <= c <= "~" else c for c in cred).encode())]
+    return [(k, v) for k, v in out if v != b or k == "exact"]
+
+
+def run_bytes(table, lines):
+    """raw command lines (bytes, CRLF added) one at a time; observation per line: codes, probe, eof"""
+    obs = []
+
+    async def main(net):
+        server = ftpsim.make_server(c05.USERS[table], c05.TREE, "memory", None, wait_future_timeout=1)
+        await server.start("127.0.0.1", ftpsim.PORT)
+        s = ftpsim.Session(net, server)
+        await s.start()
+        for l in lines:
+            if s.raw.eof:
+                obs.append({"codes": [], "probe": None, "eof": True})
+                continue
+            rep = await s.raw.send(l)
+            obs.append({"codes": simnet.final_codes(rep), "probe": s.probe(), "eof": s.raw.eof})
+        await server.close()
+
+    try:
+        simnet.run(main)
+    except Exception as e:  # noqa: BLE001
+        obs.append({"error": repr(e)})
+    return obs
+
+
+def bytes_rule(users, lines):
+    """the login rule on the BYTES sent: a credential is supplied only by exactly its encoding; a line that is not valid
+    in the server encoding supplies nothing"""
+    st = (None, False)
+    for l in lines:
+        verb, _, arg = l.partition(b" ")
+        try:
+            v, a = verb.decode("ascii"), arg.decode("utf-8")
+        except UnicodeDecodeError:
+            continue
+        st = login_oracle(users, st, v.upper(), a)
+    return st
+
+
+def stream_bytes(ctx):
+    n = 0
+    for table, login, password in (("T1", "u", "pw"), ("T2", "v", "pw2")):
+        users = c05.USERS[table]
+        cases = [("pass", k, [b"USER " + login.encode(), b"PASS " + v, b"PWD"]) for k, v in credential_variants(password)]
+        if table == "T1":  # (with an anonymous entry every unknown login is, correctly, the anonymous one)
+            cases += [("user", k, [b"USER " + v, b"PASS " + password.encode(), b"PWD"]) for k, v in credential_variants(login)]
+        for which, cls, lines in cases:
+            ctx.case(("bytes", table, which, cls, lines[0 if which == "user" else 1]))
+            ctx.traces_impl += 1
+            n += 1
+            obs = run_bytes(table, lines)
+            if obs and "error" in obs[-1]:
+                ctx.disagree("bytes-exception", {"key": "c03-driver-exception", "table": table, "lines": [l.decode("latin-1") for l in lines]}, "a verdict", obs[-1]["error"])
+                continue
+            want = bytes_rule(users, lines[:2])
+            pr = obs[1]["probe"] if len(obs) > 1 else None
+            got = (pr["user"] if pr and pr["has_user"] else None, bool(pr and pr["logged"]))
+            wname = users[want[0]]["login"] if want[0] is not None else None
+            pwd_ok = len(obs) > 2 and obs[2]["codes"] == ["257"]
+            if (got[1] and (not want[1] or got[0] != wname)) or (pwd_ok and not want[1]):
+                sent = lines[0] if which == "user" else lines[1]
+                report(ctx, f"property oracle (credentials as bytes): {lines} -> {[o['codes'] for o in obs]}: logged in as {got[0]!r} although the bytes sent "
+                            f"({sent!r}) are not the encoding of that user's {'login' if which == 'user' else 'password'}",
+                       {"key": f"c03-bytes-{cls}-{which}", "bytes": True, "table": table, "lines": [l.decode("latin-1") for l in lines]})
+    ctx.count("byte_credential_sessions", n)
+
+
 _reported = {}
 
 
@@ -583,9 +695,20 @@ def correspondence(ctx, budget=None):
         "re-login, CWD), for three issuing logins and four not-logged-in prefixes: what is served must be the object the ISSUING login was "
         "entitled to, nothing for a session that never logged in. (p) login commands PIPELINED in one write under the shipped user manager "
         "and under subclasses whose authenticate()/get_user() really suspend: the state left behind must be the login rule's. "
+        "(b) USER / PASS arguments as raw BYTES: the credential with every undecodable sequence (0xff, lone lead / continuation bytes, "
+        "overlong, surrogate, Telnet IAC) inserted at every position, leading / inner / trailing ASCII and Unicode whitespace, NUL, case, "
+        "prefix, extension, combining mark, full-width forms: a 230 requires the bytes sent to be exactly the encoded credential. The verb "
+        "set of the bounded-exhaustive histories is read from commands_mapping of the server under test; verbs unknown to the model get a "
+        "generic argument set in six login states and are judged by the spying-backend oracle alone. "
         "Non-trivial = distinct history."
     )
     others = [(v, "d" if v not in ("REST", "TYPE", "PROT", "PBSZ", "EPSV", "PASV", "ABOR", "SYST", "PWD", "CDUP") else {"REST": "3", "TYPE": "I", "PROT": "P", "PBSZ": "0"}.get(v, "")) for v in VERBS]
+    # the verb set is that of the SERVER UNDER TEST (its commands_mapping), not a list frozen in the harness: a verb the
+    # model does not know is sent with a generic argument set and judged by the spying-backend oracle alone
+    extra = server_verbs_unknown_to_harness()
+    ctx.extra["verbs_of_server_unknown_to_model"] = extra
+    for v in extra:
+        others += [(v, a) for a in GENERIC_ARGS]
     alpha = [(v, a, None) for v, a in LOGINS] + [(v, a, (b"x" if v in ("STOR", "APPE") else None)) for v, a in others]
     jobs = []
     for table in ("T1", "T2"):
@@ -598,6 +721,13 @@ def correspondence(ctx, budget=None):
         if thorough:
             for _ in range(4000):
                 jobs.append((table, [rng.choice(alpha) for _ in range(3)] + [("PWD", "", None)]))
+    # every verb the model does not know, with every generic argument, in every login state (nobody / identified 331 /
+    # wrong password / unknown user / dropped login / logged in)
+    for v in extra:
+        for a in GENERIC_ARGS:
+            for pre in ([], [("USER", "u", None)], [("USER", "u", None), ("PASS", "bad", None)], [("USER", "nobody", None)],
+                        [("USER", "nopw", None), ("USER", "u", None)], [("USER", "u", None), ("PASS", "pw", None)]):
+                jobs.append(("T1", pre + [(v, a, None), ("PWD", "", None)]))
     # the re-USER scenarios of the property, every other verb in between
     for e in alpha:
         jobs.append(("T1", [("USER", "u", None), ("PASS", "pw", None), ("PASV", "", None), ("USER", "u", None), e, ("PWD", "", None)]))
@@ -628,6 +758,7 @@ def correspondence(ctx, budget=None):
         _reported.clear()
         stream_deferred(ctx)
         stream_pipelined(ctx)
+        stream_bytes(ctx)
 
 
 def search(ctx):
@@ -652,6 +783,17 @@ def replay(ctx, data):
         for k, d in bad:
             print("  ", k, ":", d)
             ctx.violation(d, dict(r))
+        return not bad
+    if r.get("bytes"):
+        lines = [l.encode("latin-1") for l in r["lines"]]
+        obs = run_bytes(r["table"], lines)
+        want = bytes_rule(c05.USERS[r["table"]], lines[:2])
+        pr = obs[1].get("probe") if len(obs) > 1 else None
+        logged = bool(pr and pr["logged"])
+        print(lines, "->", [o.get("codes") for o in obs], "| server:", (pr or {}).get("user"), logged, "| rule on the bytes:", want)
+        bad = logged and not want[1]
+        if bad:
+            ctx.violation("logged in although the bytes sent are not the credential", dict(r))
         return not bad
     if r.get("pipelined"):
         pre = [tuple(x) for x in r["pre"]]
